@@ -22,11 +22,12 @@ Check(r) ==
                   [role |-> r.role, sent |-> Len(r.sent), delivered |-> Len(r.delivered), firstDifference |-> FirstDiff(exp, r.delivered),
                    chunks |-> r.chunks]))
      /\ (~r.overlap \/ Rej(r, "two messages of one connection were dispatched at the same time", [role |-> r.role]))
-     \* the property speaks about the outbound byte stream, not about how many Write calls carry it
-     /\ (Concat(r.written) = Concat(r.handoff)
+     \* the property speaks about the outbound byte stream, not about how many Write calls carry it; after a failed write the
+     \* connection may be given up, so the stream may end early - but what is on it is still the hand-off, whole and in order
+     /\ ((IF r.writeFault THEN IsPrefix(Concat(r.written), Concat(r.handoff)) ELSE Concat(r.written) = Concat(r.handoff))
            \/ Rej(r, "outbound stream is not the handed-off messages, whole and in hand-off order",
                   [role |-> r.role, handoff |-> Len(r.handoff), writes |-> Len(r.written), firstDifference |-> FirstDiff(r.handoff, r.written),
-                   sameBytes |-> Concat(r.written) = Concat(r.handoff)]))
+                   sameBytes |-> Concat(r.written) = Concat(r.handoff), writeFault |-> r.writeFault]))
 
 Init == l = 1
 Next == l <= Len(Trace) /\ (Check(Trace[l]) \in BOOLEAN) /\ l' = l + 1
